@@ -507,6 +507,9 @@ def run(ck):
              (dict(spec_catalogue("SEIR"), t0=0.0, x0_int="array"), [1.0, 2.0, 4.0, 8.0]),
              # (e) log-spaced output times: the longest interval is more than 1e4 times the shortest
              (dict(spec_catalogue("SIR_norm"), t0=0.0), [float(v) for v in np.logspace(-4, 1.5, 12)]),
+             # (h) a stiff system over five decades of time (lsoda's stiff method uses the Jacobian); a solution that goes negative
+             (dict(spec_catalogue("Robertson"), t0=0.0), [0.4, 4.0, 40.0, 400.0, 4000.0]),
+             (dict(spec_catalogue("FitzHugh"), t0=0.0), [0.5, 1.0, 2.0, 4.0, 6.0]),
              # (f) the first requested time is the initial time itself (np.linspace(t0, T, n)): one row per requested time
              (dict(spec_catalogue("SIR_norm"), t0=1.0, _grid_from_t0=True), [1.0, 2.0, 3.5, 7.0]),
              # (g) head counts: one infective in sixty million (a small driving compartment next to a huge one)
@@ -517,6 +520,10 @@ def run(ck):
         # the long gap is run on the methods whose step budget (nsteps / mxstep = 10000) covers it; vode/ivode (BDF/Adams at
         # pygom's tolerances) exhaust it and say so with an IntegrationError, which is not a wrong answer
         cs = [c for c in calls if not (spec["name"] == "Spiral" and c.get("method") in ("vode", "ivode"))]
+        if spec["name"] == "Robertson":
+            # five decades of a stiff problem: the odeint path (mxstep 10000 per interval) solves it, the step-by-step drivers
+            # run out of their step budget on the long intervals and say so (IntegrationError)
+            cs = [c for c in cs if c["entry"] in ("integrate", "solve_determ")]
         if spec.get("_grid_from_t0"):
             # a zero-length first step: integrate / solve_determ and integrate2 with the lsoda / vode family solve it; the direct
             # integrateFuncJac calls and dopri5 / dop853 refuse it with an IntegrationError (explicit, recorded as an observation)
